@@ -25,7 +25,7 @@ theorem conformant_noHistParent {d : Doc} (h : conformantB d = true) : NoHistPar
   unfold conformantB at h
   simp only [Bool.and_eq_true] at h
   simp only [List.all_eq_true] at h
-  obtain ⟨⟨⟨⟨_, hrootp⟩, _⟩, hids⟩, hall⟩ := h
+  obtain ⟨⟨⟨⟨⟨_, hrootp⟩, _⟩, hids⟩, hall⟩, _⟩ := h
   have hst := hall _ hmem
   simp only [Bool.and_eq_true] at hst
   obtain ⟨⟨⟨⟨⟨hpar, _⟩, _⟩, _⟩, _⟩, _⟩ := hst
